@@ -1,7 +1,7 @@
 (** C13 — the negotiated msize is never exceeded by either peer.
     Statements only; proofs in Frame/SizesProofs.v (pure arithmetic over N, all values). *)
 From Coq Require Import NArith List Bool.
-From P9V Require Import gen.ConstGen Frame.Sizes Frame.SizesProofs.
+From P9V Require Import gen.ConstGen Frame.Sizes Frame.SizesProofs Frame.Model Frame.Instantiate Frame.SizesLink.
 Import ListNotations.
 Open Scope N_scope.
 
@@ -15,6 +15,14 @@ Theorem C13_rread : forall m count avail,
   (count <= 4194304 -> tread_handle m count avail = SData (N.min (N.min count (m - 11)) avail)).
 Proof. exact rread_fits. Qed.
 Print Assumptions C13_rread.
+
+(** why "11 <= m" costs nothing: a Tread / Treaddir only reaches its handler when recv delivered it, and
+    recv (C02's model with the protocol table's decoder) delivers one only if the msize in force is >= 23 *)
+Theorem C13_request_needs_23 : forall closed msize s t ty b p c,
+  fst (recv spec_lookup spec_decode closed msize s) = Deliver t ty b p c ->
+  is_read_request ty = true -> 23 <= c /\ c <= msize /\ 23 <= msize.
+Proof. exact read_request_needs_23. Qed.
+Print Assumptions C13_request_needs_23.
 
 (** the same for a Tread on an xattr fid: value of any length, ANY offset (all of uint64 and beyond) *)
 Theorem C13_rread_xattr : forall m count off vlen,
